@@ -13,7 +13,7 @@ use crate::{
 pub struct C09;
 
 pub fn owns(clause: &str) -> bool {
-    clause == "gate.wrong_decision"
+    clause.starts_with("gate.")
 }
 
 const SWEEP: u64 = 256 * 3 * 2 * 2;
@@ -128,6 +128,19 @@ impl Prop for C09 {
                 ops.push(AppOp::Handshake(f));
             }
         }
+        // the select!-loop pattern: a version error must surface even if reads are dropped while
+        // the transport is slow (tokio)
+        let mut writes = vec![];
+        if imp == Imp::Tokio && rng.chance(1, 4) {
+            let wc = gen::WriteCfg::swarm(rng);
+            let k = rng.usize(4, 60);
+            writes = gen::gen_writes(rng, k, &wc);
+            for _ in 0..rng.usize(1, 20) {
+                ops.push(AppOp::ReadCancel {
+                    polls: rng.below(5) as u32,
+                });
+            }
+        }
         ops.push(AppOp::Drain {
             max: (frames.len() + errs + 3) as u32,
         });
@@ -140,7 +153,7 @@ impl Prop for C09 {
             buffered: false,
             inbound,
             reads,
-            writes: vec![],
+            writes,
             ops,
         }
     }
